@@ -24,6 +24,9 @@ type State struct {
 	depth   int
 	epoch   string // non-empty after a havoc-everything: maps first read later get epoch constants
 	unknownWrites bool
+	// frame checkpoints: after a call of a callback parameter (whose effects are accounted for at
+	// the call site of the higher-order function) own writes are measured against these versions
+	frameBase map[string]string
 	cands []string // candidate integer terms for ground instantiation of hypotheses
 	epochKeep map[string]bool // heap maps exempt from every havoc-everything so far (callback preserves)
 	lens  []string // lengths of append prefixes seen on the path (offsets for instantiation candidates)
@@ -77,6 +80,12 @@ func (s *State) clone() *State {
 		loopEntry: map[int]*State{},
 		lens: append([]string(nil), s.lens...),
 		epochKeep: s.epochKeep,
+	}
+	if s.frameBase != nil {
+		n.frameBase = make(map[string]string, len(s.frameBase))
+		for k, v := range s.frameBase {
+			n.frameBase[k] = v
+		}
 	}
 	for k, v := range s.loopEntry {
 		n.loopEntry[k] = v
@@ -197,6 +206,9 @@ func (e *Env) heapGet(s *State, name, sort string) string {
 		e.ownedAxiom(name, c)
 		s.heap[name] = c
 		s.hsort[name] = sort
+		if s.frameBase != nil {
+			s.frameBase[name] = c
+		}
 		return c
 	}
 	if t, ok := e.init[name]; ok {
